@@ -95,7 +95,7 @@ TABLE = {
     "band_format": ("BAND_FORMAT", "--band-format", "value"), "qpoints_format": ("QPOINTS_FORMAT", "--qpoints-format", "value"),
     "include_all": ("INCLUDE_ALL", "--include-all", "true"), "fc_calc": ("FC_CALCULATOR", "--fc-calc", "value"),
     # phonopy-load only (NAC and FC_SYMMETRY default to on there)
-    "tdisp": ("TDISP", "--td", "true"),
+    "tdisp": ("TDISP", "--td", "true"), "mass": ("MASS", "--mass", "value"),
     "nonac": ("NAC", "--nonac", "false"), "no_sym_fc": ("FC_SYMMETRY", "--no-sym-fc", "false"),
 }
 
@@ -228,14 +228,18 @@ def gen_post_step(rng, w, has_born, prev_wrote_fc, force_cmd=None):
     if has_born and (s.get("nac") or (cmd == "phonopy-load" and not s.get("nonac"))) and mode not in ("writefc",):
         if rng.random() < 0.4:
             s["nac_method"] = rng.choice(["wang", "gonze"])
-        if mode == "qpoints" and rng.random() < 0.5:
-            s["q_direction"] = "1 0 0"
+        if mode == "qpoints" and rng.random() < 0.6:
+            s["q_direction"] = rng.choice(["1 0 0", "0 0 1", "1 1 0"])
+            if "0 0 0" not in s["qpoints"]:
+                s["qpoints"] = "0 0 0  " + s["qpoints"]  # the direction only matters at the zone centre
     if rng.random() < 0.1:
         s["factor"] = 521.47083
     if rng.random() < 0.1:
         s["tolerance"] = 1e-4
     if rng.random() < 0.15:
         s["include_all"] = True
+    if rng.random() < 0.15 and mode != "readfc":
+        s["mass"] = "__AUTO__"  # filled at run time: one (modified) mass per atom of the primitive cell
     return dict(mode=mode, cmd=cmd, settings=s)
 
 
@@ -337,6 +341,8 @@ def _ref_object(spec, s, path, cmd):
             lkw["force_constants_filename"] = "force_constants.hdf5" if s.get("readfc_format") == "hdf5" else "FORCE_CONSTANTS"
         fc_from_file = bool(s.get("readfc")) or os.path.exists("FORCE_CONSTANTS") or os.path.exists("force_constants.hdf5")
         ph = phonopy.load("phonopy_disp.yaml", **lkw)
+        if "mass" in s:
+            ph.masses = [float(x) for x in s["mass"].split()]
         if fc_from_file and sym:
             ph.symmetrize_force_constants()
         if nac and "nac_method" in s:
@@ -357,6 +363,8 @@ def _ref_object(spec, s, path, cmd):
         if "nac_method" in s:
             n["method"] = s["nac_method"]
         ph.nac_params = n
+    if "mass" in s:
+        ph.masses = [float(x) for x in s["mass"].split()]
     full = bool(s.get("full_fc", False))
     if s.get("readfc"):
         if s.get("readfc_format") == "hdf5":
@@ -754,8 +762,13 @@ def execute(spec):
         last_ref = None
         last_mode = None
         last_sym = False
+        prim_symbols = list(py.primitive.symbols)
         for k, step in enumerate(spec["steps"]):
             s = dict(step["settings"])
+            if s.get("mass") == "__AUTO__":
+                from phonopy.structure.atoms import atom_data, symbol_map
+
+                s["mass"] = " ".join("%.4f" % (atom_data[symbol_map[x]][3] * (1.25 if i_ == 0 or x == prim_symbols[0] else 0.9)) for i_, x in enumerate(prim_symbols))
             mode = step["mode"]
             cmd = step["cmd"]
             stale_fc = os.path.exists(os.path.join(A.path, "FORCE_CONSTANTS")) and "stale_file:FORCE_CONSTANTS" in faults
